@@ -133,7 +133,7 @@ func (bucket *BucketMem) writeTo(stream io.Writer) (int64, error) {
 		if err != nil {
 			return 0, fmt.Errorf("gostatix: error encoding string. error: %v", err)
 		}
-		numBytes += bytes
+		numBytes += bytes + binary.Size(uint64(0))
 	}
 	return int64(numBytes) + int64(2*binary.Size(uint64(0))), nil
 }
@@ -155,7 +155,7 @@ func (bucket *BucketMem) readFrom(stream io.Reader) (int64, error) {
 	bucket.length = length
 	bucket.elements = make([]string, size)
 	numBytes := 0
-	for i := uint64(0); i < length; i++ {
+	for i := uint64(0); i < size; i++ {
 		var strLen uint64
 		err := binary.Read(stream, binary.BigEndian, &strLen)
 		if err != nil {
@@ -166,7 +166,7 @@ func (bucket *BucketMem) readFrom(stream io.Reader) (int64, error) {
 		if err != nil {
 			return 0, err
 		}
-		numBytes += bytes
+		numBytes += bytes + binary.Size(uint64(0))
 		bucket.elements[i] = string(b)
 	}
 	return int64(numBytes) + int64(2*binary.Size(uint64(0))), nil
